@@ -52,13 +52,19 @@ def decl_specs(tier):
                 fields.append(('n', I(1)))
             fields.append(('x', pos(el, m, arg, sp, ref)))
             fields.append(('z', I(1)))
-            for w in 'abcg':
+            # h, i, j: the NESTED class alone runs the field-by-field loop (both directions / parsing only / serializing only)
+            # inside a holder with generated code
+            for w in 'abcghij':
                 if tier == 'quick' and w != 'a' and ename in ('int3', 'seq') and sp == 'lambda':
                     continue
-                K = PKT('K', fields) if w != 'g' else PKT('K', fields, generate_for_pack=False, generate_for_unpack=False)
-                if w == 'b':
+                if tier == 'quick' and w in 'hij' and ename not in ('int', 'data'):
+                    continue
+                gen = {'g': dict(generate_for_pack=False, generate_for_unpack=False), 'h': dict(generate_for_pack=False, generate_for_unpack=False),
+                       'i': dict(generate_for_unpack=False), 'j': dict(generate_for_pack=False)}.get(w, {})
+                K = PKT('K', fields, **gen)
+                if w in 'bhj':
                     P = PKT('W', [('pre', I(1)), ('body', R(K))])
-                elif w == 'c':
+                elif w in 'ci':
                     P = PKT('W', [('c', I(1)), ('items', S(R(K), F('c')))])
                 else:
                     P = K
